@@ -586,21 +586,26 @@ def main(ctx):
         if kcfg_ok is not None:
             lib.write_if_changed(lib.COQ / 'C05' / 'gen' / 'RunKeys.v', '\n'.join(rk))
 
-    proof_ok = False
+    # generic theorems (independent of the tree under test), then the per-run ones
+    ok1, log1 = ctx.build_props('C05/Props.v')
     if tie_ok and cfg_ok is not None:
-        ok1, log1 = ctx.build_props('C05/Props.v')
         ok2, log2 = ctx.build_props('C05/gen/Run.v')
-        ok3, log3 = (ctx.build_props('C05/gen/RunKeys.v') if ktie_ok and kcfg_ok is not None
-                     else (False, 'key translator failed closed'))
-        proof_ok = ok1 and ok2 and ok3
-        ctx.checker_cmd = ('cd /verif/coq && make C05/Props.vo C05/gen/Run.vo C05/gen/RunKeys.vo (coqc '
-                           '8.16.1) + Print Assumptions of every theorem of these three files')
-        if not proof_ok:
-            ctx.notes['build_log_tail'] = (log1 + log2 + log3)[-1500:]
     else:
-        for n in lib.theorem_names(lib.COQ / 'C05' / 'Props.v'):
-            ctx.obligations.append({'name': n, 'discharged': False, 'assumptions': [],
-                                    'note': 'translator failed closed' if not tie_ok else 'model did not build'})
+        ok2, log2 = False, 'save translator failed closed or model did not build'
+        ctx.obligations.append({'name': 'C05_run_cfg_ok', 'discharged': False, 'assumptions': [],
+                                'note': log2})
+    if ktie_ok and kcfg_ok is not None:
+        ok3, log3 = ctx.build_props('C05/gen/RunKeys.v')
+    else:
+        ok3, log3 = False, 'key translator failed closed or model did not build'
+        ctx.obligations.append({'name': 'C05_run_key_cfg_ok', 'discharged': False, 'assumptions': [],
+                                'note': log3})
+    proof_ok = ok1 and ok2
+    kproof_ok = ok1 and ok3
+    ctx.checker_cmd = ('cd /verif/coq && make C05/Props.vo C05/gen/Run.vo C05/gen/RunKeys.vo (coqc '
+                       '8.16.1) + Print Assumptions of every theorem of these three files')
+    if not (proof_ok and kproof_ok):
+        ctx.notes['build_log_tail'] = (log1 + log2 + log3)[-1500:]
 
     # ---- 3. implementation
     files = {c: f for c, f in zip(COMPS, ['femio_nodes.npz', 'femio_elements.npz', 'femio_nodal_data.npz',
@@ -828,6 +833,11 @@ def main(ctx):
                       'translator accepts to_dict / from_dict / _split_dict_data', 'fail-closed',
                       'translator c05_keys (key_cfg_ok cannot be evaluated)', found_input=False,
                       signature={'kind': 'key-tie-broken'})
+    if ktie_ok and (kcfg_ok is None or not kproof_ok) and n_key_bad == 0 and n_rt_bad == 0:
+        bad = [o['name'] for o in ctx.obligations if not o['discharged']]
+        ctx.violation('proof-broken', {'undischarged': bad}, 'C05 key-scheme theorems check', 'do not check',
+                      ', '.join(bad) or 'key model build', found_input=False,
+                      signature={'kind': 'key-proof-broken'})
     if ktie_ok and kcfg_ok is False and n_key_bad == 0 and n_rt_bad == 0:
         ctx.violation('proof-broken', {'model_witnesses': key_witness},
                       'key_cfg_ok kcfg = true', 'false, and no failing input was found on the implementation',
